@@ -184,6 +184,7 @@ func (x *Exec) verify() {
 					label = fmt.Sprintf("%d.case%d", i, ci)
 				}
 				ob := x.oblige("ensures", label, c.Tags, c.Text, o.And(r.St.Guard, cs), goal)
+				ob.Clause = c
 				if len(cases) > 1 {
 					ob.Case = cs
 				}
